@@ -23,6 +23,14 @@ def open_log(path):
     return path
 
 
+def open_log_append(path):
+    """join an existing log from a separately started process (no truncation)"""
+    global _FD, _PATH
+    _FD = os.open(path, os.O_WRONLY | os.O_CREAT | os.O_APPEND, 0o644)
+    _PATH = path
+    return path
+
+
 def close_log():
     global _FD
     if _FD is not None:
